@@ -14,3 +14,4 @@ pub mod frim;
 pub mod bmp_http;
 pub mod targets;
 pub mod manager;
+pub mod mrt_import;
